@@ -5,13 +5,96 @@ import StirVerif.C14.Model
     stream (T<ms> | E<p|d>:<seg>:<view>:<ax>:<tang>:<tof> | E<p|d>:x)*                       -> ok <n>
     run <storeP> <storeD> <segs> <tofs> <numEvents> <maxSeg> <fromFile> <outMode> <n> (<s> <e>)*
         -> t=<last time> sim=<num_segments_in_memory> | <frame 1> | <frame 2> …   (outMode 1: last frame only)
-           a frame = its non-zero bins `seg,view,ax,tang,tof=count` sorted by (tof,seg,view,ax,tang), or `-`;  or `err` -/
+           a frame = its non-zero bins `seg,view,ax,tang,tof=count` sorted by (tof,seg,view,ax,tang), or `-`;  or `err`
+    The list-mode objective function (`cfg tpl` = ranges of the processed geometry, `stream` as above):
+    lmcfg nvox=<V> dtf=<0|1> s=<ms> e=<ms> nev=<num_events_to_use> cache=<events per batch> nsub=<n> add=<0|1>   -> ok
+    lmimg <f>…(V)                                   current image (C99 hex floats)                              -> ok
+    lmbin <seg> <view> <ax> <tang> <tof> <basic view> <a|-> <m> (<voxel> <p>)…(m)   row / additive term of a bin -> ok
+    lmgps <subset>   -> per voxel `<round(exact·2^100)>:<ceil(bound·2^100)>`: the model's `lmContribs` on the batches
+                        `lmEvents` (event selection, batches, subset test, 1/(row·image+add) back projected) evaluated
+                        exactly in `Rat`; bound = forward error bound 4·n·2⁻²⁴·Σ|terms|, n = longest row + number of
+                        additions to the voxel + 10;  `no-row` if an event's bin has no `lmbin` line -/
 namespace Driver.C14
 open StirVerif.C14
 
 structure St where
   tpl : Template
   recs : List Record
+  lm : LmCfg
+  nvox : Nat := 0
+  nsub : Int := 1
+  hasAdd : Bool := false
+  img : Array Rat := #[]
+  bins : List (Bin × LmBinData Rat) := []
+
+/-- hex digit -/
+def hexVal (c : Char) : Option Nat :=
+  if '0' ≤ c ∧ c ≤ '9' then some (c.toNat - '0'.toNat)
+  else if 'a' ≤ c ∧ c ≤ 'f' then some (c.toNat - 'a'.toNat + 10)
+  else if 'A' ≤ c ∧ c ≤ 'F' then some (c.toNat - 'A'.toNat + 10)
+  else none
+
+/-- exact value of a C99 hex float (`%a`): `[-]0x<h>[.<hhh>]p<±e>` -/
+def parseHex (s : String) : Option Rat := do
+  let (neg, cs) := match s.toList with
+    | '-' :: r => (true, r)
+    | '+' :: r => (false, r)
+    | r => (false, r)
+  let cs ← match cs with
+    | '0' :: 'x' :: r => some r
+    | '0' :: 'X' :: r => some r
+    | _ => none
+  let rec go (cs : List Char) (mant : Nat) (frac : Nat) (seenDot : Bool) : Option (Nat × Nat × List Char) :=
+    match cs with
+    | [] => some (mant, frac, [])
+    | 'p' :: r => some (mant, frac, r)
+    | 'P' :: r => some (mant, frac, r)
+    | '.' :: r => go r mant frac true
+    | c :: r => do
+      let d ← hexVal c
+      go r (mant * 16 + d) (if seenDot then frac + 1 else frac) seenDot
+  let (mant, frac, rest) ← go cs 0 0 false
+  let e : Int ← if rest.isEmpty then some 0 else (String.ofList (match rest with | '+' :: r => r | r => r)).toInt?
+  let e := e - 4 * (frac : Int)
+  let m : Rat := (mant : Int)
+  let v : Rat := if e ≥ 0 then m * ((2 ^ e.toNat : Nat) : Int) else m / ((2 ^ (-e).toNat : Nat) : Int)
+  some (if neg then -v else v)
+
+def hexD (s : String) : Rat := (parseHex s).getD 0
+def absR (q : Rat) : Rat := if q < 0 then -q else q
+def scale : Nat := 2 ^ 100
+def roundScaled (q : Rat) : Int := (q * (scale : Int) + (1 : Rat) / 2).floor
+def ceilScaled (q : Rat) : Int := (q * (scale : Int)).ceil + 1
+/-- `u = 2⁻²⁴` -/
+def u24 : Rat := (1 : Rat) / ((2 ^ 24 : Nat) : Int)
+
+def keyVal (toks : List String) (key : String) : Option String :=
+  toks.findSome? fun t => if t.startsWith (key ++ "=") then some ((t.drop (key.length + 1)).toString) else none
+
+def parseRow : Nat → List String → List (Nat × Rat) → Option (List (Nat × Rat))
+  | 0, _, acc => some acc.reverse
+  | n + 1, v :: p :: l, acc => do
+    let v ← v.toNat?
+    let p ← parseHex p
+    parseRow n l ((v, p) :: acc)
+  | _, _, _ => none
+
+def doLmGps (st : St) (subset : Int) : String :=
+  let batches := lmEvents st.lm st.recs
+  let find := fun (b : Bin) => (st.bins.find? fun x => x.1 == b).map (·.2)
+  if batches.any (fun bt => bt.any fun b => (find b).isNone) then "no-row" else
+  let data := fun (b : Bin) => (find b).getD { row := [], add := 0, basicView := 0 }
+  let img := fun i => st.img.getD i 0
+  let cs := lmContribs data img st.nsub subset batches
+  let val := accumulate st.nvox cs
+  let mag := accumulate st.nvox (cs.map fun e => (e.1, absR e.2))
+  let cnt := accumulate st.nvox (cs.map fun e => (e.1, (1 : Rat)))
+  let rowLen := batches.foldl (fun m bt => bt.foldl (fun m b => max m (data b).row.length) m) 0
+  let toks := (List.range st.nvox).map fun v =>
+    let n : Rat := (rowLen : Int) + cnt.getD v 0 + 10
+    let b := 4 * n * u24 * mag.getD v 0
+    s!"{roundScaled (val.getD v 0)}:{ceilScaled b}"
+  " ".intercalate toks
 
 def I (s : String) : Int := s.toInt?.getD 0
 
@@ -68,6 +151,19 @@ def stepLine (st : St) (line : String) : St × String :=
       let (frames, cur) := processData c st.recs
       let shown := if om == "1" then frames.drop (frames.length - 1) else frames
       (st, s!"t={cur} sim={c.segsInMemory}" ++ String.join (shown.map fun a => " | " ++ fmtFrame a))
+  | "lmcfg" :: rest =>
+    let g := fun k => I ((keyVal rest k).getD "0")
+    ({ st with lm := { tpl := st.tpl, doTimeFrame := g "dtf" == 1, startT := g "s", endT := g "e", numEventsToUse := g "nev",
+                       cacheSize := (g "cache").toNat },
+               nvox := (g "nvox").toNat, nsub := g "nsub", hasAdd := g "add" == 1, img := #[], bins := [] }, "ok")
+  | "lmimg" :: fs => ({ st with img := (fs.map hexD).toArray }, "ok")
+  | "lmbin" :: a :: b :: c :: d :: e :: bv :: add :: m :: rest =>
+    match parseRow (I m).toNat rest [] with
+    | none => (st, "bad-row")
+    | some row =>
+      let av : Rat := if add == "-" then 0 else hexD add
+      ({ st with bins := (⟨I a, I b, I c, I d, I e⟩, { row := row, add := av, basicView := I bv }) :: st.bins }, "ok")
+  | ["lmgps", sub] => (st, doLmGps st (I sub))
   | _ => (st, "bad-op")
 
 partial def loop (h : IO.FS.Stream) (st : St) : IO Unit := do
@@ -79,5 +175,8 @@ partial def loop (h : IO.FS.Stream) (st : St) : IO Unit := do
 
 def main : IO Unit := do
   loop (← IO.getStdin) { tpl := { minSeg := 0, maxSeg := 0, minTof := 0, maxTof := 0, minTang := 0, maxTang := 0,
-                                  axRange := fun _ => (0, 0) }, recs := [] }
+                                  axRange := fun _ => (0, 0) }, recs := [],
+                         lm := { tpl := { minSeg := 0, maxSeg := 0, minTof := 0, maxTof := 0, minTang := 0, maxTang := 0,
+                                          axRange := fun _ => (0, 0) },
+                                 doTimeFrame := false, startT := 0, endT := 0, numEventsToUse := 0, cacheSize := 1 } }
 end Driver.C14
